@@ -45,11 +45,12 @@ def run_tests(wt, tag):
     return passed
 
 
-ids = sys.argv[1:] or sorted(os.path.basename(p) for p in glob.glob('/tmp/seed/C*'))
+ROOT = os.environ.get('SEED_ROOT', '/tmp/seed')
+ids = sys.argv[1:] or sorted(os.path.basename(p) for p in glob.glob(ROOT + '/C*'))
 for pid in ids:
-    for ch in sorted(glob.glob(f'/tmp/seed/{pid}/change*')):
+    for ch in sorted(glob.glob(f'{ROOT}/{pid}/change*')):
         k = os.path.basename(ch)
-        key = f'{pid}/{k}'
+        key = f'{pid}/{k}' if ROOT == '/tmp/seed' else f'{os.path.basename(ROOT)}:{pid}/{k}'
         if key in results and results[key].get('done'):
             continue
         if not os.path.exists(os.path.join(ch, 'patch.diff')) or not os.path.exists(os.path.join(ch, 'demo.py')):
